@@ -22,6 +22,7 @@ import logging
 import os
 import shutil
 import tempfile
+import traceback
 from types import SimpleNamespace
 
 import antismash.main as AM
@@ -68,6 +69,14 @@ ASSUMPTIONS = [
     "reused results still save to the original text (they keep their own strictness label).",
     "Feature order inside a record is not part of 'the same features': multisets of (type, location, qualifiers) are "
     "compared; order differences are only counted.",
+    "cand_cluster and region features are not added by any results object but derived by Record.create_candidate_"
+    "clusters / create_regions from the protoclusters and subregions that were added. For protoclusters with identical "
+    "coordinates their member order, Region.detection_rules and even the set of single candidates follow set iteration "
+    "over address-hashed objects and differ between two runs from scratch as often as between a run and a reload "
+    "(measured: 15 resp. 12 of 67 cases), so they are excluded from the verdict and only counted (C05/C17 subject).",
+    "Equality of the information held by two results objects (clause results-object-state-identical) is decided on a "
+    "generic dump of all attributes (sets sorted, features by what they write to a record); it exists to see fields "
+    "that a to_json forgets although nothing else depends on them.",
 ]
 
 MODULES = {
@@ -472,12 +481,10 @@ def shapes_of(ctx, case, record, results: dict) -> None:
     if nrps is not None:
         for res in nrps.cds_results.values():
             for module in res.modules:
-                labels = [c.label for c in module.components]
                 if len({c.locus for c in module.components}) > 1:
                     ctx.count("shape:cross-cds-module")
                 if sum(1 for c in module.components if c.is_carrier_protein()) > 1:
                     ctx.count("shape:double-carrier-module")
-                del labels
             if any(hit.internal_hits for hit in res.domain_hmms):
                 ctx.count("shape:nested-subtype")
     found = results.get("tta")
@@ -626,7 +633,6 @@ def run_case(ctx, case) -> None:
 
 
 def crash_module(err) -> dict:
-    import traceback
     frames = traceback.extract_tb(err.__traceback__)
     where = [f"{os.path.basename(f.filename)}:{f.name}" for f in frames[-4:]]
     module = ""
@@ -671,8 +677,7 @@ def expect_refused(ctx, case, facts0, short, field, data, record) -> None:
 
 
 def fresh(case, record_id=C.RECORD_ID):
-    record = C.build_record(case, record_id)
-    return record
+    return C.build_record(case, record_id)
 
 
 def check_guards(ctx, case, saved: dict, record_with_regions, facts0) -> None:
